@@ -120,3 +120,6 @@ func MakeEnv(v any) *sslibdsse.Envelope {
 	}
 	return env
 }
+
+// TufKeyFromSSLib wraps an SSLib key as a tuf principal.
+func TufKeyFromSSLib(k *signerverifier.SSLibKey) *tufv01.Key { return tufv01.NewKeyFromSSLibKey(k) }
